@@ -1,0 +1,59 @@
+//go:build verif
+// +build verif
+
+package leveldb
+
+import (
+	"github.com/syndtr/goleveldb/leveldb/iterator"
+	"github.com/syndtr/goleveldb/leveldb/table"
+	"github.com/syndtr/goleveldb/leveldb/util"
+)
+
+// Read-only exports for the verification harness, check C20 (second pass: iterators in both directions,
+// pooled block buffers). Compiled only with -tags verif.
+
+// VerifBlockPool returns the buffer pool the table readers and writers of this DB use (nil when
+// DisableBufferPool is set).
+func VerifBlockPool(db *DB) *util.BufferPool { return db.s.tops.blockBuffer }
+
+// VerifIterOwnBuffers returns dbIter.key and dbIter.value over their full capacity (the real arrays), for an
+// iterator made by DB / Snapshot / Transaction .NewIterator. ok is false for another kind of iterator.
+func VerifIterOwnBuffers(it iterator.Iterator) (key, value []byte, ok bool) {
+	x, isDB := it.(*dbIter)
+	if !isDB {
+		return nil, nil, false
+	}
+	return x.key[:cap(x.key)], x.value[:cap(x.value)], true
+}
+
+// VerifHeldBlock is one table block an iterator's children hold right now.
+type VerifHeldBlock struct {
+	Data   []byte // the real buffer over its full capacity
+	Cached bool   // held through a handle of the block cache
+	Owned  bool   // a private buffer, put back to the buffer pool on release
+}
+
+// VerifIterHeldBlocks walks the tree under a DB iterator (merged iterator, indexed iterators of levels and of
+// tables, block iterators) and returns every table block some child holds.
+func VerifIterHeldBlocks(it iterator.Iterator) []VerifHeldBlock {
+	x, isDB := it.(*dbIter)
+	if !isDB || x.iter == nil {
+		return nil
+	}
+	var out []VerifHeldBlock
+	var walk func(i iterator.Iterator, depth int)
+	walk = func(i iterator.Iterator, depth int) {
+		if i == nil || depth > 8 {
+			return
+		}
+		if d, cached, owned, ok := table.VerifIterBlock(i); ok {
+			out = append(out, VerifHeldBlock{Data: d, Cached: cached, Owned: owned})
+			return
+		}
+		for _, c := range iterator.VerifChildren(i) {
+			walk(c, depth+1)
+		}
+	}
+	walk(x.iter, 0)
+	return out
+}
